@@ -3,6 +3,7 @@ package rag
 import (
 	"strings"
 	"unicode"
+	"unicode/utf8"
 )
 
 // OverlapStrategy defines how overlap between chunks is computed
@@ -146,22 +147,39 @@ func (og *OverlapGenerator) GenerateOverlap(chunkText string) *OverlapResult {
 
 // generateCharacterOverlap extracts character-based overlap from the end of text
 func (og *OverlapGenerator) generateCharacterOverlap(text string) string {
-	if len(text) <= og.config.Size {
+	return og.tailOverlap(text, og.config.Size)
+}
+
+// tailOverlap returns the end of text, at most size bytes long, starting at a
+// character boundary (and at a word start when words are preserved)
+func (og *OverlapGenerator) tailOverlap(text string, size int) string {
+	if len(text) <= size {
 		return text
 	}
 
-	// Start from target position
-	start := len(text) - og.config.Size
+	// Start from target position, but never inside a multi-byte character
+	start := len(text) - size
+	for start < len(text) && !utf8.RuneStart(text[start]) {
+		start++
+	}
 
 	// If preserving words, find the next word boundary
 	if og.config.PreserveWords {
 		// Move forward to find start of a word
-		for start < len(text) && !unicode.IsSpace(rune(text[start])) {
-			start++
+		for start < len(text) {
+			r, n := utf8.DecodeRuneInString(text[start:])
+			if unicode.IsSpace(r) {
+				break
+			}
+			start += n
 		}
 		// Skip whitespace
-		for start < len(text) && unicode.IsSpace(rune(text[start])) {
-			start++
+		for start < len(text) {
+			r, n := utf8.DecodeRuneInString(text[start:])
+			if !unicode.IsSpace(r) {
+				break
+			}
+			start += n
 		}
 	}
 
@@ -231,44 +249,35 @@ func (og *OverlapGenerator) generateParagraphOverlap(text string) (string, int) 
 	return strings.TrimSpace(overlap.String()), sentenceCount
 }
 
-// truncateOverlap reduces overlap to fit within MaxOverlap while preserving sentences
+// truncateOverlap reduces overlap to fit within MaxOverlap while preserving
+// sentences. The overlap stays the end of the chunk it was taken from, so
+// sentences are dropped from its start.
 func (og *OverlapGenerator) truncateOverlap(overlap string) string {
 	if len(overlap) <= og.config.MaxOverlap {
 		return overlap
 	}
 
-	// Try to truncate at a sentence boundary
+	// Keep as many trailing sentences as fit within MaxOverlap
 	sentences := splitIntoSentencesWithPositions(overlap)
-	if len(sentences) == 0 {
-		// No sentences, truncate at word boundary
-		return og.generateCharacterOverlap(overlap[:og.config.MaxOverlap])
-	}
-
-	// Find how many sentences fit within MaxOverlap
-	var result strings.Builder
-	for _, s := range sentences {
-		test := result.String()
-		if result.Len() > 0 {
-			test += " "
+	result := ""
+	for i := len(sentences) - 1; i >= 0; i-- {
+		test := sentences[i].text
+		if result != "" {
+			test += " " + result
 		}
-		test += s.text
 
 		if len(test) > og.config.MaxOverlap {
 			break
 		}
-
-		if result.Len() > 0 {
-			result.WriteString(" ")
-		}
-		result.WriteString(s.text)
+		result = test
 	}
 
-	if result.Len() == 0 {
-		// First sentence exceeds max, truncate it
-		return og.generateCharacterOverlap(overlap[:og.config.MaxOverlap])
+	if result == "" {
+		// No sentences, or the last sentence exceeds max: truncate it
+		return og.tailOverlap(overlap, og.config.MaxOverlap)
 	}
 
-	return result.String()
+	return result
 }
 
 // sentenceWithPosition holds a sentence and its position in the original text
